@@ -67,9 +67,14 @@ func ExecVia(api string, prog *parser.Program, cfg *interp.Config) (int, error) 
 
 // RenderShared writes a SharedProgram body as AWK.
 func RenderShared(body []Instr) (string, bool) {
-	var sb strings.Builder
+	var sb, rules strings.Builder
 	sb.WriteString("function dbl(x) { return x + x }\nBEGIN {\n  a = 0; b = 0\n")
-	for _, in := range body {
+	for j, in := range body {
+		if in.Op == "range" {
+			// a range rule of the program (SharedProgram: "range"), applied to the records of SharedInput after BEGIN
+			fmt.Fprintf(&rules, "NR == %d, NR == %d { print %d + NR }\n", in.G, in.K, 1000*(j+1))
+			continue
+		}
 		if in.G < 1 || in.G > 2 {
 			return "", false
 		}
@@ -101,14 +106,33 @@ func RenderShared(body []Instr) (string, bool) {
 			fmt.Fprintf(&sb, "  (\"echo \" id) | getline %s\n", g)
 		case "printcmd":
 			fmt.Fprintf(&sb, "  print %s | (\"echo \" id \"; read v; echo $v\"); close(\"echo \" id \"; read v; echo $v\")\n", g)
+		// conversions of a NON-INTEGER number through the formats of the execution (OFMT / CONVFMT are variables of
+		// Config.Vars, different for every execution of a case: SharedProgram!FmtOf)
+		case "oprint":
+			fmt.Fprintf(&sb, "  print %s + 0.25\n", g)
+		case "conv":
+			fmt.Fprintf(&sb, "  print ((%s + 0.25) \"\")\n", g)
 		case "close":
 			sb.WriteString("  close(\"echo \" id)\n")
 		default:
 			return "", false
 		}
 	}
+	if rules.Len() > 0 {
+		sb.WriteString("}\n" + rules.String() + "END {\n")
+	}
 	sb.WriteString("  print a\n  print b\n}\n")
 	return sb.String(), true
+}
+
+// SharedInput is the input of a SharedProgram body: SharedProgram!NRec records when the program has range rules.
+func SharedInput(body []Instr) string {
+	for _, in := range body {
+		if in.Op == "range" {
+			return "r1\nr2\nr3\n"
+		}
+	}
+	return ""
 }
 
 // The per-instruction hook of the interpreter is one global, so scheduled
@@ -128,7 +152,7 @@ type procResult struct {
 // time, in the order given by sched (repeated cyclically, finished processes
 // skipped).  The first grant of an execution covers the allocation of the
 // interpreter and the set-up of the execution.
-func RunScheduled(prog *parser.Program, n int, sched []int, apis []string, runs int) ([]procResult, int, error) {
+func RunScheduled(prog *parser.Program, n int, sched []int, apis []string, runs int, input string) ([]procResult, int, error) {
 	if runs < 1 {
 		runs = 1
 	}
@@ -163,7 +187,7 @@ func RunScheduled(prog *parser.Program, n int, sched []int, apis []string, runs 
 				}
 				for k := 0; k < runs && res[i].err == nil; k++ {
 					var out bytes.Buffer
-					res[i].status, res[i].err = ExecVia(api, prog, &interp.Config{Stdin: strings.NewReader(""), Output: &out, Error: &out, Environ: []string{}})
+					res[i].status, res[i].err = ExecVia(api, prog, &interp.Config{Stdin: strings.NewReader(input), Output: &out, Error: &out, Environ: []string{}})
 					res[i].outs = append(res[i].outs, out.Bytes())
 				}
 			}()
@@ -267,12 +291,21 @@ func replayShared(raw json.RawMessage) hx.Outcome {
 			}
 		}
 	}
+	for _, in := range c.Body {
+		if in.Op == "range" {
+			cls = "range-rule" // the in-range state of a rule is state of the execution
+			if in.K > 3 {
+				cls = "range-rule-open-at-end"
+				break
+			}
+		}
+	}
 	// the reference: one execution on a Program of its own
 	tm := map[int]string{}
 	if own, err := parser.ParseProgram([]byte(src), nil); err == nil {
 		var out bytes.Buffer
 		schedMu.Lock() // no scheduled run (whose step hook is global) is in progress
-		_, xerr := ExecVia(ApiNewExecute, own, &interp.Config{Stdin: strings.NewReader(""), Output: &out, Error: &out, Environ: []string{}})
+		_, xerr := ExecVia(ApiNewExecute, own, &interp.Config{Stdin: strings.NewReader(SharedInput(c.Body)), Output: &out, Error: &out, Environ: []string{}})
 		schedMu.Unlock()
 		if xerr == nil {
 			if d := tokenMap(tm, c.Expect.Out, out.Bytes()); d != "" {
@@ -281,7 +314,7 @@ func replayShared(raw json.RawMessage) hx.Outcome {
 		}
 	}
 	before := Digest(prog)
-	res, arrivals, rerr := RunScheduled(prog, c.NProc, c.Sched, c.Apis, c.Runs)
+	res, arrivals, rerr := RunScheduled(prog, c.NProc, c.Sched, c.Apis, c.Runs, SharedInput(c.Body))
 	if rerr != nil {
 		return hx.Fail("C19/shared/stuck", rerr.Error(), want.String(), nil, src)
 	}
